@@ -145,7 +145,7 @@ func (e *executableWorkflow) Execute(ctx context.Context, serializedInput any) (
 					waitingForInputText = " and is waiting for input"
 				}
 				e.logger.Debugf("Stage change for step %s to %s%s...", stepID, stage, waitingForInputText)
-				l.onStageComplete(stepID, previousStage, previousStageOutputID, previousStageOutput, wg)
+				l.onStageComplete(stepID, previousStage, previousStageOutputID, previousStageOutput, false, wg)
 			},
 			onStepComplete: func(
 				_ step.RunningStep,
@@ -159,8 +159,7 @@ func (e *executableWorkflow) Execute(ctx context.Context, serializedInput any) (
 				} else {
 					e.logger.Debugf("Step %s completed with stage '%s'...", stepID, previousStage)
 				}
-				l.onStageComplete(stepID, &previousStage, previousStageOutputID, previousStageOutput, wg)
-				l.markUnreachedStages(stepID)
+				l.onStageComplete(stepID, &previousStage, previousStageOutputID, previousStageOutput, true, wg)
 			},
 			onStepStageFailure: func(_ step.RunningStep, stage string, _ *sync.WaitGroup, err error) {
 				if err == nil {
@@ -385,6 +384,7 @@ func (l *loopState) onStageComplete(
 	previousStage *string,
 	previousStageOutputID *string,
 	previousStageOutput *any,
+	stepCompleted bool,
 	wg *sync.WaitGroup,
 ) {
 	l.lock.Lock()
@@ -449,6 +449,11 @@ func (l *loopState) onStageComplete(
 		l.data[WorkflowStepsKey].(map[string]any)[stepID].(map[string]any)[*previousStage].(map[string]any)[*previousStageOutputID] = *previousStageOutput
 	}
 	l.notifySteps()
+	if stepCompleted {
+		// This is done in the same critical section as the completion itself, so that the deadlock check
+		// never sees a finished step whose unreached stages are still undecided.
+		l.markUnreachedStages(stepID)
+	}
 }
 
 // Marks the outputs of that stage unresolvable.
@@ -482,9 +487,8 @@ func (l *loopState) markOutputsUnresolvable(stepID string, stageID string, skipp
 // markUnreachedStages declares every stage that a completed step has not finished as not going to happen.
 // A step does not finish any stage after its completion, so whatever refers to such a stage, for example an
 // optional reference to the error output of a step that succeeded, does not have to wait for it any longer.
+// The lock should be acquired by the caller before this is called.
 func (l *loopState) markUnreachedStages(stepID string) {
-	l.lock.Lock()
-	defer l.lock.Unlock()
 	for _, stage := range l.lifecycles[stepID].Stages {
 		stageNode, err := l.dag.GetNodeByID(GetStageNodeID(stepID, stage.ID))
 		if err != nil {
